@@ -15,7 +15,11 @@
 (* stall: the handler has no timer and never repeats a request.                           *)
 EXTENDS RDAC, Json
 
-CONSTANTS Lose, Swap, Dup            \* fault budgets
+CONSTANTS Lose, Swap, Dup,           \* fault budgets
+          InLoop                     \* the handler is driven by a running asyncio event loop (the only way a
+                                     \* DatagramProtocol is driven outside tests): the step that completes the run calls
+                                     \* Repeater.read_snmp_values, which calls asyncio.run() - that raises inside a running
+                                     \* loop, after the step was set to 14 and before the completion callback
 
 VARIABLES st, net, fl, hist, ndone, opened
 vars == <<st, net, fl, hist, ndone, opened>>
@@ -46,7 +50,7 @@ Handle(k, rest) ==
   LET s == StepOf(st, Peer)
       r == Recv(st, Peer, Resp(k))
       t == StepOf(r.st, Peer)
-  IN /\ st' = r.st /\ ndone' = ndone + r.done
+  IN /\ st' = r.st /\ ndone' = ndone + (IF InLoop THEN 0 ELSE r.done)
      /\ net' = IF r.nsent > 0 /\ t # s THEN rest \o Script(t) ELSE rest
      /\ hist' = Append(hist, Resp(k))
 
